@@ -105,6 +105,7 @@ PROPERTIES = {
             ('C14-R3', c14.rule_wcmatch_predicates, 'quick'),
             ('C02-R7', c02.rule_nodir, 'quick'),  # round 4: a seeded change of C18 was visible to this rule only
             ('C02-R5', c02.rule_globstar_predicate, 'quick'),  # round 4: a seeded change of C18 was visible to this rule only
+            ('C05-R4', cglob.rule_specials_and_start, 'quick'),  # F29: descriptor scans report str names
         ],
     },
     'C19': {
@@ -401,6 +402,7 @@ PROPERTIES = {
             ('C02-R10', cextra.rule_lookahead_putback, 'quick'),
             ('C01-R6', cextra.rule_inverse_cleanup, 'quick'),  # unbalanced regex = re.error (F23)
             ('C02-R7', c02.rule_nodir, 'quick'),  # the tail of translate / compile_pattern indexes positive[0]
+            ('C05-R4', cglob.rule_specials_and_start, 'quick'),  # F29: descriptor scans report str names
         ],
     },
 }
